@@ -7,7 +7,10 @@ use boa_macros::{Finalize, Trace};
 
 use crate::{
     JsString,
-    object::shape::{Shape, WeakShape, slot::Slot},
+    object::shape::{
+        Shape, WeakShape,
+        slot::{Slot, SlotAttributes},
+    },
 };
 
 #[cfg(test)]
@@ -20,6 +23,10 @@ pub(crate) const PIC_CAPACITY: usize = 4;
 pub(crate) struct CacheEntry {
     /// A weak reference is kept to the shape to avoid the shape preventing deallocation.
     pub(crate) shape: WeakShape,
+    /// The shape of the prototype, if the slot is an index into the prototype's storage.
+    ///
+    /// Such an entry is only valid while the prototype keeps this shape.
+    pub(crate) prototype_shape: Option<WeakShape>,
     #[unsafe_ignore_trace]
     pub(crate) slot: Slot,
 }
@@ -71,12 +78,22 @@ impl InlineCache {
             return;
         }
 
+        let prototype_shape = if slot.attributes.contains(SlotAttributes::PROTOTYPE) {
+            let Some(prototype) = shape.prototype() else {
+                return;
+            };
+            Some(prototype.borrow().shape().clone())
+        } else {
+            None
+        };
+
         let mut entries = self.entries.borrow_mut();
 
         // Add a new entry if there's space.
         if entries
             .try_push(CacheEntry {
                 shape: shape.into(),
+                prototype_shape: prototype_shape.as_ref().map(Into::into),
                 slot,
             })
             .is_err()
@@ -107,6 +124,16 @@ impl InlineCache {
         while i < entries.len() {
             if let Some(upgraded) = entries[i].shape.upgrade() {
                 if upgraded.to_addr_usize() == shape_addr {
+                    // A slot in the prototype is stale as soon as the prototype changes its shape.
+                    if let Some(prototype_shape) = &entries[i].prototype_shape {
+                        let current = upgraded
+                            .prototype()
+                            .map(|prototype| prototype.borrow().shape().to_addr_usize());
+                        if current.is_none() || current != Some(prototype_shape.to_addr_usize()) {
+                            entries.swap_remove(i);
+                            break;
+                        }
+                    }
                     result = Some((upgraded, entries[i].slot));
                     break;
                 }
